@@ -153,11 +153,15 @@ func main() {
 	case "race":
 		for i := 0; i < *n; i++ {
 			rr := r.Fork()
-			runCase(o, &Case{Race: &Race{K: 2 + rr.Intn(15), SSH: rr.Chance(1, 4), Renewers: rr.Intn(4), Spell: rr.Chance(1, 2)}})
+			rc := &Race{K: 2 + rr.Intn(15), SSH: rr.Chance(1, 4), Renewers: rr.Intn(4), Spell: rr.Chance(1, 2)}
+			if !rc.SSH && rr.Chance(1, 5) {
+				rc.ACME = true
+			}
+			runCase(o, &Case{Race: rc})
 		}
 	case "defects":
 		for _, d := range []Defect{{Kind: "ssh-serial", Spelling: "0"}, {Kind: "ssh-serial", Spelling: ""}, {Kind: "ssh-serial-jwk", Spelling: "0"}, {Kind: "x509-serial", Spelling: "0x"},
-			{Kind: "ssh-serial", Spelling: "0x", Refused: true}, {Kind: "ssh-serial", Spelling: "+", Refused: true}, {Kind: "ssh-serial-jwk", Spelling: " ", Refused: true}} {
+			{Kind: "ssh-serial", Spelling: "0x", Refused: true}, {Kind: "ssh-serial", Spelling: "+", Refused: true}, {Kind: "ssh-serial-jwk", Spelling: " ", Refused: true}, {Kind: "ssh-identity"}} {
 			d := d
 			runCase(o, &Case{Defect: &d})
 		}
